@@ -273,7 +273,7 @@ def m_counts(x, ref: RefResult, spec: dict, rid: int = 0) -> t.List[V]:
         if n not in ref.touched:
             out.append(('forbidden-exec', f'{n} executed {c}x; the reference never demands it'))
         elif c > exp.get(n, 0):
-            out.append(('dup-exec', f'{n} executed {c}x; reference {exp.get(n, 0)}x'))
+            out.append((_dup_symptom(spec, n) if c > 1 else 'dup-exec', f'{n} executed {c}x; reference {exp.get(n, 0)}x'))
     if ref.outcome[0] == 'value' and x.outcomes[rid] is not None and x.outcomes[rid][0] == 'value':
         for n in ref.certain:
             if got.get(n, 0) < exp.get(n, 0):
@@ -293,8 +293,22 @@ def m_counts_upper(x, ref: RefResult, spec: dict, rid: int = 0, forbidden_only: 
         if n not in ref.touched:
             out.append(('forbidden-exec', f'{n} executed {c}x; the reference never demands it'))
         elif c > exp.get(n, 0) and not forbidden_only:
-            out.append(('dup-exec', f'{n} executed {c}x; reference {exp.get(n, 0)}x'))
+            out.append((_dup_symptom(spec, n) if c > 1 else 'dup-exec', f'{n} executed {c}x; reference {exp.get(n, 0)}x'))
     return out
+
+
+def _dup_symptom(spec: dict, n: str) -> str:
+    """A node that lies in no recurrent region has no legitimate reason at all to run more often than the reference
+    says (no re-iteration re-arms it): a sharper symptom than 'dup-exec', kept apart so that findings about eager
+    re-execution INSIDE a re-iterated region do not cover it."""
+    marks = S.rec_marks(spec)
+    if not marks:
+        return 'dup-exec'
+    deps = S.static_deps(spec)
+    for _, arg in marks:
+        if n in S.rec_region(spec, deps, arg['start'], arg['dest']):
+            return 'dup-exec'
+    return 'dup-exec-outside-rec'
 
 
 def m_oneof_order(x, ref: RefResult, spec: dict, rid: int = 0) -> t.List[V]:
@@ -366,7 +380,7 @@ def m_cancel(x, rid: int = 0) -> t.List[V]:
 
 # ------------------------------------------------------------------------------- C14
 
-def m_events(x, ref: t.Optional[RefResult], spec: dict, rid: int = 0, nmgr: int = 1) -> t.List[V]:
+def m_events(x, ref: t.Optional[RefResult], spec: dict, rid: int = 0, nmgr: int = 1, partial_first: t.Sequence[str] = ()) -> t.List[V]:
     tr = Trace(x, rid)
     out: t.List[V] = []
     if x.status != 'done' or tr.cancel_pos is not None:
@@ -377,6 +391,8 @@ def m_events(x, ref: t.Optional[RefResult], spec: dict, rid: int = 0, nmgr: int 
     result_obj = oc[2]
     run_failed = oc[0] == 'error'
     for mgr in range(nmgr):
+        if partial_first and mgr == 0:
+            continue        # the first manager lacks hooks by construction; the complete one behind it is the observer
         evs = [e for e in tr.events if e[4] == mgr]
         kinds = [e[1] for e in evs]
         if kinds.count('pipeline_start') != 1 or kinds[0] != 'pipeline_start':
@@ -466,7 +482,7 @@ def m_events(x, ref: t.Optional[RefResult], spec: dict, rid: int = 0, nmgr: int 
                     if not any(p < pos for p in succ_pos.get(arg, [])):
                         out.append(('events-consumer-before-complete', f'{n}#{i} started before on_node_complete({arg}, error=None)'))
     # managers called in registration order
-    if nmgr > 1:
+    if nmgr > 1 and not partial_first:
         # per node (and for the pipeline-level events) both managers must observe the same history; the interleaving of
         # events of DIFFERENT nodes may differ between managers when a callback of the first one suspends
         def per_node(m: int) -> dict:
@@ -478,6 +494,18 @@ def m_events(x, ref: t.Optional[RefResult], spec: dict, rid: int = 0, nmgr: int 
         if not run_failed and per_node(0) != per_node(1):
             diff = [k for k in set(per_node(0)) | set(per_node(1)) if per_node(0).get(k) != per_node(1).get(k)]
             out.append(('events-managers-differ', f'the two managers observed different histories for {diff[:3]}'))
+    if nmgr > 1 and partial_first and not run_failed:
+        # the partial manager must still get every hook it does define, with the history the complete manager saw
+        def per_node_kinds(m: int) -> dict:
+            d: t.Dict[t.Any, list] = {}
+            for e in tr.events:
+                if e[4] == m and e[1] not in partial_first:
+                    d.setdefault(e[2], []).append((e[1], None if e[3] is None or e[1].startswith('pipeline') else type(e[3]).__name__))
+            return d
+        a, b = per_node_kinds(0), per_node_kinds(1)
+        if a != b:
+            diff = [k for k in set(a) | set(b) if a.get(k) != b.get(k)]
+            out.append(('events-managers-differ', f'the partial manager and the complete one observed different histories for {diff[:3]}'))
     return out
 
 
